@@ -113,6 +113,7 @@ class F:
     order: Optional[str] = None  # source expr of order(...)
     default_value: Any = None  # python value of the default (model side); for factory: a fresh copy each time
     validators: Tuple[str, ...] = ()  # names of field validators (generated)
+    inherited: bool = False  # declared by a (generic) base given in Obj.bases: in the model with its substituted type, not emitted
 
     @property
     def optional(self) -> bool:
